@@ -541,6 +541,67 @@ def gen_plugin_case(rng, ntests):
     return g.ops
 
 
+def gen_rereport_case(rng):
+    """several reports asked of ONE detector without a startChecking() in between (`rereport`, `plugin refinal`: the harness does
+    not empty the detector's text first): report(p); release some; report(q); report again; everything released, report;
+    FinalReport twice.  Few small blocks, so that the text of all the reports fits the detector's text buffer and each answer
+    (the text that call appended) is judged: total, entries, no-leaks answer."""
+    g = Gen(rng)
+    g.size = lambda: rng.randint(0, 6)
+    plugin = rng.random() < 0.45
+
+    def release(l):
+        b = g.blocks[l]
+        f, ln = g.loc()
+        g.ops.append("free %d %s 0 %s %d %d" % (b["alloc"], l, f, ln, b["sep"]))
+        b["tracked"] = False
+        g.occupied.discard(b["slot"])
+        g.stale.append(l)
+
+    if rng.random() < 0.3:
+        g.alloc()                                   # a block of the disabled period
+    if plugin:
+        g.ops.append("plugin create")
+    else:
+        g.ops.append("period enable")
+    g.period = "enabled"
+    for _ in range(rng.choice([0, 0, 1])):
+        g.alloc()
+    g.ops.append("plugin pre" if plugin else "period start"); g.period = "checking"
+    for _ in range(rng.randint(1, 3)):
+        g.alloc() if rng.random() < 0.8 else g.galloc()
+    x = rng.random()
+    if plugin and x < 0.5:
+        g.ops.append("plugin post"); g.period = "enabled"
+        for l in g.tracked():
+            if g.blocks[l]["period"] == "checking":
+                g.blocks[l]["period"] = "enabled"
+    elif not plugin and x < 0.5:
+        g.ops.append("period stop"); g.period = "enabled"
+    for i in range(rng.randint(2, 5)):
+        if plugin and rng.random() < 0.4:
+            g.ops.append("plugin refinal %d" % final_arg(g, rng))
+        else:
+            g.ops.append("rereport " + rng.choice(["checking", "checking", "enabled", "all"]))
+        y = rng.random()
+        tr = g.tracked()
+        if y < 0.5 and tr:
+            release(rng.choice(tr))
+        elif y < 0.6 and len(tr) < 4:
+            g.alloc()
+        elif y < 0.65:
+            g.free()                                # now and then a misuse in between: its text goes into the same buffer
+    for l in g.tracked():
+        if rng.random() < 0.8:
+            release(l)
+    g.ops.append("rereport " + rng.choice(["checking", "enabled", "all"]))
+    g.ops.append("rereport all")
+    if plugin:
+        g.ops.append("plugin refinal %d" % rng.choice([0, 0, 1]))
+        g.ops.append("plugin refinal 0")
+    return g.ops
+
+
 def final_arg(g, rng):
     """the announced number of leaks: often exactly the number of blocks outstanding for the enabled period, else near it"""
     n = len([l for l in g.tracked() if g.blocks[l]["period"] != "disabled"])
@@ -590,6 +651,8 @@ def generate(rng, tier):
         out.append(("plugin", gen_plugin_case(rng, rng.choice([1, 2, 4, 8, 20]))))
     for _ in range(n // 4):
         out.append(("switch", gen_switch_case(rng, rng.choice(lens[:5]))))
+    for _ in range(n // 5):
+        out.append(("rereport", gen_rereport_case(rng)))
     out.append(("many", gen_many(rng, 1500 if tier == "quick" else 20000)))
     return out
 
@@ -644,7 +707,7 @@ def _walk(r):
                 ch.remove(a)
             yield "stage_release_block"
         elif w[0] == "report":
-            yield "report_" + w[1]
+            yield ("report_again_" if op and (op[0] == "rereport" or op[:2] == ["plugin", "refinal"]) else "report_") + w[1]
         elif w[0] == "leak":
             yield "report_entry"
         elif w[0] == "fail":
